@@ -42,7 +42,8 @@ def with_groups(cfg, assign):
 def run(tier):
     c = Check("C08", tier)
     exe = driver("asan")
-    cfgs, beh = model_behaviours(c, tier, cfgsel=[1, 2, 3, 5, 7, 8] if tier == "quick" else [1, 2, 3, 4, 5, 6, 7, 8], maxuses=2)
+    # 23: two sub-groups with the same keys inside and a positional argument; 24: command-mode argument (ends the evaluation)
+    cfgs, beh = model_behaviours(c, tier, cfgsel=[1, 2, 3, 5, 7, 8, 23, 24] if tier == "quick" else [1, 2, 3, 4, 5, 6, 7, 8, 23, 24], maxuses=2)
     # R: every model behaviour through Groups, for every partition of the arguments over 1..3 member handlers
     by = collections.defaultdict(list)
     for b in beh:
@@ -98,6 +99,24 @@ def run(tier):
             words = g.spell_line(cfg, line)
             acts.append(eval_action(words, mode="groups", tag={"k": "line", "line": line_json(line)}))
             acts.append(eval_action(words + ["stray9"], mode="groups", tag={"k": "mut", "m": "stray_value"}))
+        blocks.append((cfg, acts))
+    # sub-groups inside member handlers, command-mode arguments: valid lines and rules broken inside a sub-group
+    for k in range(60 if tier == "quick" else 1500):
+        ngrp = g.r.randint(2, 3)
+        if k % 2:
+            cfg = g.cfg(nargs=g.r.randint(2, 6), constraints=True, groups=ngrp, subgroups=g.r.choice([1, 1, 2]), cmd=g.r.choice([None, None, "key", "pos"]),
+                        exclude=arggen.GROWBITS)
+            lines = [gen_valid(g, cfg) for _ in range(nlines + 2)]
+        else:
+            cfg, lines = arggen.subgroup_scenario(g, ngrp)
+        acts = []
+        for line in lines:
+            words = g.spell_line(cfg, line) if line is not None else None
+            if words is None:
+                continue
+            acts.append(eval_action(words, mode="groups", tag={"k": "line", "line": line_json(line)}))
+            for kind, w in arggen.sub_mutations(g, cfg, line):
+                acts.append(eval_action(w, mode="groups", tag={"k": "mut", "m": kind}))
         blocks.append((cfg, acts))
     # key tables with collisions spread over the members
     stems = ["in", "input", "out", "output", "v", "verbose", "num"]
